@@ -89,6 +89,53 @@ type fnRes struct {
 	nctx       int
 }
 
+// refineByTable: the star index a function hands to NewNineStar, when intervals cannot bound it (a start value picked
+// from a local table by a computed column, say) but R16.5 has followed that function over its whole input domain and
+// found the stated index — a number 0..8 — every time: the table's result is taken ("TABLE-R16.5" in the evidence).
+func (e *rangeEngine) refineByTable(caller, callee *ssa.Function, args []aval) []aval {
+	if fname(callee) != "calendar.NewNineStar" || len(args) != 1 {
+		return args
+	}
+	if !args[0].bot && args[0].lo() >= 0 && args[0].hi() <= 8 {
+		return args
+	}
+	if e.c.starTableOK == nil {
+		e.c.starTableOK = map[*ssa.Function]bool{}
+		r16_5(e.c, newReport("C16"))
+	}
+	if e.c.starTableOK[caller] {
+		if m := meetVal(args[0], rangeVal(0, 8)); !m.bot {
+			return []aval{m.withAx(args[0].ax | axBit("TABLE-R16.5"))}
+		}
+	}
+	return args
+}
+
+// siteOverrideFor: the axiom stated for calls of callee inside fn — or, when fn is an unexported helper (or function
+// literal), inside every function that calls it: the helper is part of the functions the axiom was stated for.
+func (e *rangeEngine) siteOverrideFor(fn *ssa.Function, callee string, depth int) (aval, bool) {
+	if v, ok := e.siteOverride[fname(fn)+"|"+callee]; ok {
+		return v, true
+	}
+	if depth > 2 || !isLocalHelper(fn) {
+		return aval{}, false
+	}
+	sites := e.c.callSitesOf(fn)
+	var out aval
+	for i, site := range sites {
+		v, ok := e.siteOverrideFor(site.Parent(), callee, depth+1)
+		if !ok {
+			return aval{}, false
+		}
+		if i == 0 {
+			out = v
+		} else {
+			out = joinVal(out, v).withAx(out.ax | v.ax)
+		}
+	}
+	return out, len(sites) > 0
+}
+
 type rangeEngine struct {
 	c             *Ctx
 	ctxOK         map[*ssa.Function]bool
@@ -352,7 +399,7 @@ func (e *rangeEngine) solve() {
 				paramContrib[g] = map[*ssa.Function][]aval{}
 			}
 			if args, ok := res.callArgs[g]; ok {
-				paramContrib[g][fn] = args
+				paramContrib[g][fn] = e.refineByTable(fn, g, args)
 			} else {
 				delete(paramContrib[g], fn)
 			}
@@ -930,7 +977,7 @@ func (e *rangeEngine) analyse(fn *ssa.Function, forceWiden bool) *fnRes {
 						if isIntType(phi.Type()) {
 							v := a.get(es, edge)
 							v = a.searchHitAdjust(phi, pi, v)
-							if ov, ok := a.e.siteOverride[fname(a.fn)+"|"+phiOfCall(phi)]; ok && !v.bot {
+							if ov, ok := a.e.siteOverrideFor(a.fn, phiOfCall(phi), 0); ok && !v.bot {
 								if m := meetVal(v, ov); !m.bot {
 									v = m.withAx(v.ax | ov.ax)
 								}
@@ -1731,7 +1778,7 @@ func (a *fnAnalysis) call(st *rstate, x *ssa.Call) {
 		if isIntType(x.Type()) {
 			// a bound method value (x.M used as a function) is the method itself
 			cname := strings.TrimSuffix(fname(callee), "$bound")
-			v, ok := a.e.siteOverride[fname(a.fn)+"|"+cname]
+			v, ok := a.e.siteOverrideFor(a.fn, cname, 0)
 			if !ok {
 				v, ok = a.e.retOverride[cname]
 			}
